@@ -240,7 +240,11 @@ def _run_shard(args):
         if job.kind == 'hyp':
             import hypothesis
             from hypothesis import given
-            n = job.n // nshards + (1 if shard < job.n % nshards else 0)
+            total = job.n
+            scale = float(os.environ.get('VERIF_SCALE', '1') or 1)      # mutation campaigns run reduced budgets
+            if scale != 1:
+                total = max(min(job.n, 32), int(job.n * scale))
+            n = total // nshards + (1 if shard < total % nshards else 0)
             if n > 0:
                 @hypothesis.seed(derive_seed(seed, prop.ID, job.name, shard))
                 @_hyp_settings(n)
